@@ -842,7 +842,7 @@ Proof.
   - (* GNext *)
     match goal with |- context [if ?c then _ else (st, rejected)] => destruct c end; cbn [fst snd]; [|apply rejected_ok; exact I].
     destruct (nth (n g) (gens st) None) as [[[cur k] a]|]; cbn [fst snd]; [|apply rejected_ok; exact I].
-    destruct (cur <? k); [|destruct (cur =? k); [|destruct (how =? 1)]]; cbn [fst snd];
+    destruct (cur <? k); [|destruct (cur =? k); [|destruct (how mod 3 =? 1)]]; cbn [fst snd];
       try (apply rejected_ok; exact I); apply simple_ok; auto with s3; try apply c0_frames; cbn; try reflexivity; try lia; intros; lia.
   - (* GDestroy *)
     destruct (inr g NG); cbn [fst snd]; [|apply rejected_ok; exact I].
